@@ -73,6 +73,9 @@ def ok_payload_origins(b, pv):
                     res.append(('other', bi, si, pv._origin_of_def(0, 'rv', bi, si, rv, frozenset())))
         t = blk['term']
         if t['t'] == 'call' and t['dest']['l'] == 0 and not t['dest']['proj']:
+            if re.search(r'FromResidual.*::from_residual$', callee_path(t) or ''):
+                res.append(('err', bi, None, set()))          # `?`: a residual is never an Ok value
+                continue
             res.append(('call', bi, None, {('call', (bi, callee_path(t) or '<indirect>'), ())}))
     return res
 
@@ -343,6 +346,12 @@ def _pieces_of_iter(w, b, pv, origins, depth=0):
         if pv.values_operand(t['args'][0]) == {('param', 1, ())}:
             return [('line', 0)], ''
         return None, 'lines() of something other than the input'
+    if p == 'core::str::<impl str>::split_terminator' and len(t['args']) == 2:
+        # lines() = split_terminator('\n') with one trailing CR removed per piece; CR is white space, and the piece has to be trimmed at the end anyway
+        sep = t['args'][1]
+        if pv.values_operand(t['args'][0]) == {('param', 1, ())} and sep.get('o') == 'const' and (sep.get('int') == 10 or sep.get('str') == '\n'):
+            return [('line', 0)], ''
+        return None, 'split_terminator(..) with another separator or subject'
     if ITER_ID.search(p):
         return _pieces_of_iter(w, b, pv, pv.origins_operand(t['args'][0]), depth + 1)
     if p in ('std::iter::Iterator::map', 'std::iter::Iterator::flat_map'):
@@ -486,7 +495,19 @@ def r2_postprocessor_shape(w):
                               % (_describe_pieces(pieces), why or 'wrong pieces'), b.loc(t['span']))
                     continue
             r.bad(cons, '%s|return' % name, 'post-processor returns %s: neither the accumulator nor the constant "\\n"' % fmt_origin(o, b), b.loc())
+    def const_return_on_empty():
+        return any(kind == 'call' and _guarded_by_is_empty(b, pv, bi) for (kind, bi, si, origs) in ok_payload_origins(b, pv)
+                   for o in origs if strip_casts(o)[0] == 'call' and pv.call_term(strip_casts(o))['args']
+                   and pv.origins_operand(pv.call_term(strip_casts(o))['args'][0]) == {('const', ('str', '\n'), ())})
+
+    def require_empty_answer():
+        if const_return_on_empty():
+            r.ok({'fn': name, 'empty_input': 'constant return'}, 'the empty text is answered with a single line feed')
+        else:
+            r.bad({'fn': name, 'empty_input': 'none'}, '%s|empty-input' % name,
+                  'for the empty text the post-processor returns the empty string (no line, nothing appended): the output would not end with a line feed', b.loc())
     if acc is None and pipeline:
+        require_empty_answer()
         return r
     if acc is None:
         r.bad({'fn': name}, '%s|no-accumulator' % name, 'no String accumulator found', b.loc())
@@ -511,6 +532,7 @@ def r2_postprocessor_shape(w):
         else:
             r.bad(cons, '%s|push_str-arg' % name, 'the text the post-processor appends per line is %s (%s), expected [trim_end(line), LF]' % (_describe_pieces(pieces), why or 'wrong pieces'),
                   b.loc(t['span']))
+        require_empty_answer()
         return r
     if len(loops) != 1:
         r.bad({'fn': name}, '%s|loops' % name, 'expected exactly one loop, found %d' % len(loops), b.loc())
@@ -518,89 +540,148 @@ def r2_postprocessor_shape(w):
     (header, blocks), = loops.items()
     next_t = b.blocks[header]['term']
     np = callee_str(next_t) or ''
-    it_ok = False
-    if next_t['t'] == 'call' and callee_path(next_t) == 'std::iter::Iterator::next' and 'std::str::Lines' in np:
-        # iterator provenance: str::lines(param 1), through into_iter and borrows
+    # (a) what the loop iterates: one piece per line of the input (`s.lines()`, `s.lines().map(str::trim_end)`, `s.split_terminator('\n')`)
+    item_piece, why_it = None, 'the loop is not driven by Iterator::next'
+    if next_t['t'] == 'call' and callee_path(next_t) == 'std::iter::Iterator::next':
         srcs = pv.through(pv.origins_operand(next_t['args'][0]), ITER_ID)
-        it_ok = bool(srcs)
-        for o in srcs:
-            if not (o[0] == 'call' and not o[2] and (callee_path(pv.call_term(o)) or '') == 'core::str::<impl str>::lines'
-                    and pv.values_operand(pv.call_term(o)['args'][0]) == {('param', 1, ())}):
-                it_ok = False
+        pcs, why_it = _pieces_of_iter(w, b, pv, srcs) if srcs else (None, 'no iterator provenance')
+        if pcs is not None and len(pcs) == 1 and pcs[0][0] == 'line':
+            item_piece = pcs[0]
+        elif pcs is not None:
+            why_it = 'the iterator yields %s per line' % _describe_pieces(pcs)
     cons = {'fn': name, 'loop_header': 'bb%d' % header}
-    if it_ok:
-        r.ok(cons, 'loop iterates str::lines(input)')
+    if item_piece is not None:
+        r.ok(cons, 'loop iterates the lines of the input (%s per item)' % _describe_pieces([item_piece])[0])
     else:
-        r.bad(cons, '%s|loop-iter' % name, 'the loop does not iterate str::lines(input) (header call: %s)' % np, b.loc(next_t['span']))
-    # all uses of &mut acc: push_str(trim_end(item)) and push('\n') inside the loop; nothing else anywhere
-    item_local = None
-    push_nl_blocks, push_str_blocks = [], []
-    for bi, t in b.calls():
-        p = callee_path(t) or ''
-        uses_acc = False
-        for a in t['args']:
-            for o in pv.origins_operand(a):
-                if o == ('ref', (acc, ()), ()):
-                    uses_acc = True
-        if not uses_acc:
-            continue
-        cons = {'fn': name, 'call': p, 'bb': bi}
-        if p == 'std::string::String::push_str' and bi in blocks:
-            ao = [strip_casts(x) for x in pv.origins_operand(t['args'][1])]
-            good = len(ao) == 1 and ao[0][0] == 'call' and _trims_unicode_whitespace(pv.call_term(ao[0]))
-            if good:
-                src = pv.origins_operand(pv.call_term(ao[0])['args'][0])
-                good = all(o[0] == 'call' and o[1][0] == header and o[2] == (('v', 1), ('f', 0)) for o in src)
-            if good:
-                push_str_blocks.append(bi)
-                r.ok(cons, 'push_str(trim_end(line))')
-            else:
-                r.bad(cons, '%s|push_str-arg' % name,
-                      'text appended to the result is not str::trim_end(<current line>): %s' % [fmt_origin(x, b) for x in ao], b.loc(t['span']))
-        elif p == 'std::string::String::push' and bi in blocks:
-            ao = pv.origins_operand(t['args'][1])
-            if ao == {('const', ('char', 10), ())}:
-                push_nl_blocks.append(bi)
-                r.ok(cons, "push('\\n')")
-            else:
-                r.bad(cons, '%s|push-arg' % name, 'character appended is not LF: %s' % [fmt_origin(x, b) for x in ao], b.loc(t['span']))
-        else:
-            r.bad(cons, '%s|acc-use|%s' % (name, p), 'accumulator is modified by `%s` (%s the loop): only push_str(trim_end(line)) and push(LF) inside the loop are accepted'
-                  % (p, 'inside' if bi in blocks else 'outside'), b.loc(t['span']))
-    # every iteration: push_str then push('\n') are on every path from the Some edge back to the header
-    some_succ = [s for s in b.succs(header)]
-    # header terminator is the call; its target block switches on the discriminant
-    cons = {'fn': name, 'loop_body': sorted(blocks)}
+        r.bad(cons, '%s|loop-iter' % name, 'the loop does not iterate str::lines(input) (%s; header call: %s)' % (why_it, np[:120]), b.loc(next_t['span']))
+        return r
+
+    def piece_of_operand(op, depth=0):
+        """piece denoted by a str / char operand inside the loop body: the current item, its trim_end, or LF"""
+        ors = {strip_casts(o) for o in pv.peel(pv.origins_operand(op))}
+        if len(ors) != 1 or depth > 4:
+            return None
+        o = next(iter(ors))
+        if o[0] == 'call' and o[1][0] == header and o[2] == (('v', 1), ('f', 0)):
+            return item_piece
+        if o[0] == 'const' and o[1] in (('str', '\n'), ('char', 10)):
+            return LF
+        if o[0] == 'call' and not o[2] and _trims_unicode_whitespace(pv.call_term(o)):
+            inner = piece_of_operand(pv.call_term(o)['args'][0], depth + 1)
+            if inner and inner[0] == 'line':
+                return ('line', inner[1] + 1)
+        return None
+    # (b) what is appended, in execution order: the body has to be straight-line from the Some edge back to the header
+    sw_bb = b.succs(header)[0] if b.succs(header) else None
+    sw = b.blocks[sw_bb]['term'] if sw_bb is not None else None
     body_entry = None
-    sw = b.blocks[b.succs(header)[0]]['term'] if b.succs(header) else None
     if sw and sw['t'] == 'switch':
-        for v, tgt in sw['targets']:
-            if v == 1:
+        for val, tgt in sw['targets']:
+            if val == 1:
                 body_entry = tgt
+    cons = {'fn': name, 'loop_body': sorted(blocks)}
     if body_entry is None:
         r.bad(cons, '%s|loop-shape' % name, 'cannot find the Some edge of the loop', b.loc())
         return r
-    if len(push_nl_blocks) != 1 or len(push_str_blocks) != 1:
-        r.bad(cons, '%s|per-iteration' % name, 'expected exactly one push_str and one push(LF) per iteration, found %d/%d' % (len(push_str_blocks), len(push_nl_blocks)), b.loc())
+    order, cur, ok_line = [], body_entry, True
+    while cur != header:
+        order.append(cur)
+        succ = [x for x in b.succs(cur) if not b.blocks[x]['cleanup']]
+        if len(succ) != 1 or b.blocks[cur]['term']['t'] == 'switch' or cur in order[:-1]:
+            ok_line = False
+            break
+        cur = succ[0]
+    if not ok_line:
+        r.bad(cons, '%s|skippable' % name, 'the loop body branches: some iteration can skip an append (or append something else)', b.loc())
         return r
-    ps, pn = push_str_blocks[0], push_nl_blocks[0]
-    # header reachable from body_entry avoiding ps? avoiding pn?  order: ps before pn
-    if cfg.paths_avoiding(b, body_entry, {header}, {ps}) or cfg.paths_avoiding(b, body_entry, {header}, {pn}):
-        r.bad(cons, '%s|skippable' % name, 'some iteration can skip push_str(trim_end(line)) or push(LF)', b.loc())
-    elif cfg.paths_avoiding(b, body_entry, {pn}, {ps}):
-        r.bad(cons, '%s|order' % name, 'push(LF) can happen before push_str(..) in an iteration', b.loc())
-    elif cfg.paths_avoiding(b, pn, {ps}, {header}):
-        r.bad(cons, '%s|order' % name, 'push_str can follow push(LF) within one iteration: a line would not end right after its LF', b.loc())
-    else:
+    pieces = []
+    for bi in order:
+        t = b.blocks[bi]['term']
+        if t['t'] != 'call' or not t['args']:
+            continue
+        p = callee_path(t) or ''
+        uses_acc = any(o == ('ref', (acc, ()), ()) for a in t['args'] for o in pv.origins_operand(a))
+        if not uses_acc:
+            continue
+        cons2 = {'fn': name, 'call': p, 'bb': bi}
+        got = None
+        if p in ('std::string::String::push_str', 'std::string::String::push') and len(t['args']) == 2:
+            pc = piece_of_operand(t['args'][1])
+            got = [pc] if pc else None
+        elif p == 'std::iter::Extend::extend' and len(t['args']) == 2:
+            # `res.extend([line, "\n"])`
+            ors = {strip_casts(o) for o in pv.peel(pv.origins_operand(t['args'][1]))}
+            if len(ors) == 1 and next(iter(ors))[0] == 'agg' and pv.agg_rvalue(next(iter(ors))).get('ak') == 'array':
+                got = [piece_of_operand(op) for op in pv.agg_rvalue(next(iter(ors)))['ops']]
+                got = got if all(got) else None
+        if got is None:
+            r.bad(cons2, '%s|push_str-arg' % name, 'what `%s` appends to the result in the loop is neither the current line trimmed at the end nor LF' % p.rsplit('::', 1)[-1], b.loc(t['span']))
+            return r
+        r.ok(cons2, 'appends %s' % _describe_pieces(got))
+        pieces += got
+    cons = {'fn': name, 'pieces_per_line': _describe_pieces(pieces)}
+    if _pieces_good(pieces):
         r.ok(cons, 'every iteration appends trim_end(line) then LF')
+    else:
+        r.bad(cons, '%s|per-iteration' % name, 'per line the loop appends %s, expected [trim_end(line), LF]' % _describe_pieces(pieces), b.loc())
+        return r
+    # (c) the accumulator is touched nowhere else, except: created empty, asked `is_empty()`, and given one LF when it is empty after the loop
+    fixups = []
+    for bi, t in b.calls():
+        if bi in blocks or not t['args']:
+            continue
+        p = callee_path(t) or ''
+        if not any(o == ('ref', (acc, ()), ()) for a in t['args'] for o in pv.origins_operand(a)):
+            continue
+        cons2 = {'fn': name, 'call': p, 'bb': bi}
+        if re.search(r'String::is_empty$|String::len$|Deref>?::deref$|::as_str$', p):
+            continue
+        if p == 'std::string::String::push' and pv.origins_operand(t['args'][1]) == {('const', ('char', 10), ())} and _acc_empty_guard(b, pv, bi, acc):
+            fixups.append(bi)
+            r.ok(cons2, 'one LF when nothing was appended (empty input)')
+            continue
+        r.bad(cons2, '%s|acc-use|%s' % (name, p), 'accumulator is modified by `%s` outside the loop' % p, b.loc(t['span']))
+    # (d) empty input gives "\n": by the guarded constant return, or by that fix-up
+    const_ret = any(kind == 'call' and _guarded_by_is_empty(b, pv, bi) for (kind, bi, si, origs) in ok_payload_origins(b, pv)
+                    for o in origs if strip_casts(o)[0] == 'call' and pv.origins_operand(pv.call_term(strip_casts(o))['args'][0]) == {('const', ('str', '\n'), ())})
+    cons = {'fn': name, 'empty_input': 'constant return' if const_ret else ('LF appended when the result is empty' if fixups else 'none')}
+    if const_ret or fixups:
+        r.ok(cons, 'the empty text is answered with a single line feed')
+    else:
+        r.bad(cons, '%s|empty-input' % name, 'for the empty text the post-processor returns the empty string: the output would not end with a line feed', b.loc())
     # loop exits only via iterator exhaustion
-    exits = [(x, s) for x in blocks for s in b.succs(x) if s not in blocks]
-    bad_exits = [(x, s) for (x, s) in exits if x != b.succs(header)[0]]
+    exits = [(x, s_) for x in blocks for s_ in b.succs(x) if s_ not in blocks]
+    bad_exits = [(x, s_) for (x, s_) in exits if x != sw_bb]
     if bad_exits:
         r.bad({'fn': name, 'exits': bad_exits}, '%s|early-exit' % name, 'the loop can be left before the iterator is exhausted', b.loc())
     else:
         r.ok({'fn': name, 'exits': exits}, 'single exit: iterator exhaustion')
     return r
+
+
+def _acc_empty_guard(b, pv, bi, acc):
+    """block bi is dominated by the true edge of a switch on String::is_empty(&acc)"""
+    from paths import BodyView
+    v = BodyView(None, b) if False else None
+    import cfg as _cfg
+    for x, blk in enumerate(b.blocks):
+        t = blk['term']
+        if t['t'] != 'switch' or t['discr'].get('o') not in ('copy', 'move'):
+            continue
+        ok = False
+        for o in pv.origins_operand(t['discr']):
+            if o[0] == 'call' and re.search(r'String::is_empty$', callee_path(pv.call_term(o)) or ''):
+                if any(y == ('ref', (acc, ()), ()) for y in pv.origins_operand(pv.call_term(o)['args'][0])):
+                    ok = True
+        if not ok:
+            continue
+        for val, tgt in t['targets']:
+            pass
+        # true edge = otherwise (bool switch lists the 0 target)
+        true_tgt = t['otherwise'] if any(val == 0 for val, _ in t['targets']) else None
+        if true_tgt is not None and _cfg.edge_dominates(b, x, true_tgt, bi):
+            return True
+    return False
 
 
 def _guarded_by_is_empty(b, pv, bi):
